@@ -42,6 +42,7 @@ class SymQueue:
             ex.assume(st, self.bitmap == ones)
         else:
             ex.assume(st, self.bitmap != ones)
+        ex.assume(st, (self.bitmap & lowmask) != BV(0, 128))   # an entry exists only after its first fragment
         self.lowmask = lowmask
 
     def frag(self, i):
@@ -77,6 +78,9 @@ def spec_rq_new(ck, functional):
     seq = Int(z3.BitVec('seq', 8), 8)
     buf = sym_bytes(ex, st, 'buf')
     ex.inputs = {'total': total, 'seq': seq, 'buf': buf}
+    # precondition guaranteed by the only caller (Fragments::reassemble validates the header; that the caller
+    # really establishes it is decided by the reassemble spec, where `new` is executed inline on arbitrary datagrams)
+    ex.assume(st, z3.And(z3.ULT(seq.t, total.t), z3.ULE(total.t, BV(127, 8))))
     finals = ex.call_fn(st, fn, [total, seq, buf])
     if functional:
         for s in finals:
@@ -96,7 +100,7 @@ def spec_rq_new(ck, functional):
             j = z3.BitVec(fresh_name('j'), 64)
             ex.prove(s, 'C11/new/slot-bytes', z3.Implies(z3.And(pre, k == s64, z3.ULT(j, buf.len)), ek.at(j) == buf.at(j)))
     ck.absorb(ex, 'ReassembleQueue::new', finals)
-    ck.bounds['ReassembleQueue::new'] = 'total,seq: all u8; buf: any bytes, len <= %d' % MAXLEN
+    ck.bounds['ReassembleQueue::new'] = 'all seq < total <= 127 (caller-guaranteed); buf: any bytes, len <= %d' % MAXLEN
 
 
 # =========================================================================== ReassembleQueue::add_fragment (one inductive step)
@@ -112,6 +116,8 @@ def spec_rq_add(ck, functional):
     seq = Int(z3.BitVec('seq', 8), 8)
     buf = sym_bytes(ex, st, 'buf')
     ex.inputs = {'seq': seq, 'queue_total': sq.total, 'queue_bitmap': sq.bitmap, 'buf': buf}
+    # caller-guaranteed precondition (reassemble: seq < header total == queue total); see spec_reassemble for the caller
+    ex.assume(st, z3.ULT(z3.ZeroExt(56, seq.t), sq.total))
     finals = ex.call_fn(st, fn, [Ref(qcell, ()), seq, buf])
     if functional:
         s64 = z3.ZeroExt(56, seq.t)
@@ -147,7 +153,7 @@ def spec_rq_add(ck, functional):
             ex.prove(s, 'C11/add/vec-len-preserved', fr2.len == sq.total)
     ck.absorb(ex, 'ReassembleQueue::add_fragment', finals)
     ck.bounds['ReassembleQueue::add_fragment'] = ('one step from ANY queue state satisfying the representation invariant '
-                                                  '(1<=total<=127, vec len == total, bitmap ones above total, incomplete); seq: all u8; buf len <= %d' % MAXLEN)
+                                                  '(1<=total<=127, vec len == total, bitmap ones above total, incomplete); all seq < total (caller-guaranteed); buf len <= %d' % MAXLEN)
 
 
 # =========================================================================== ReassembleQueue::assemble
@@ -190,8 +196,7 @@ def _fragments_state(ex, st, ntimer=2):
         sq = SymQueue(ex_, st_, 'mq')
         queues[str(key)] = sq
         st_.env.setdefault('queues', {})[str(key)] = sq
-        ex_.inputs['existing_queue_total'] = sq.total
-        ex_.inputs['existing_queue_bitmap'] = sq.bitmap
+        st_.env['inputs'] = dict(st_.env.get('inputs', {}), existing_queue_total=sq.total, existing_queue_bitmap=sq.bitmap)
         return sq.value(ex_, st_)
     ex.map_value_factory = factory
     timer_items = []
@@ -356,6 +361,7 @@ def spec_make_fragments_new(ck, functional):
     mtu = Int(z3.BitVec('mtu', 64), 64)
     buf = sym_bytes(ex, st, 'frame', maxlen=MAXLEN)
     ex.inputs = {'id': fid, 'mtu': mtu, 'frame_len': Int(buf.len, 64)}
+    ex.assume(st, z3.ULT(mtu.t, BV(1 << 20, 64)))
     finals = ex.call_fn(st, fn, [fid, mtu, buf])
     if functional:
         for s in finals:
@@ -367,13 +373,15 @@ def spec_make_fragments_new(ck, functional):
             # mathematically exact ceil(len/size): q + (r != 0) for THE Euclidean quotient/remainder of len by size
             q, r = ex.divmod(s, buf.len, size)
             need = z3.If(r == BV(0, 64), q, q + 1)
-            pre = z3.And(z3.UGT(mtu.t, BV(4, 64)), z3.ULT(mtu.t, BV(1 << 32, 64)))
-            ex.prove(s, 'C11/producer/total-is-ceil-len-over-payload', z3.Implies(z3.And(pre, z3.ULE(need, BV(127, 64))), z3.ZeroExt(56, total) == need))
-            ex.prove(s, 'C11/producer/oversize-frame-refused', z3.Implies(pre, z3.ULE(need, BV(127, 64))))
+            fits = z3.And(z3.UGT(mtu.t, BV(4, 64)), z3.ULE(need, BV(127, 64)))
+            ex.prove(s, 'C11/producer/total-is-ceil-len-over-payload', z3.Implies(fits, z3.ZeroExt(56, total) == need))
+            # a frame that cannot be expressed (more than 127 fragments, or no room for payload) must be refused:
+            # total == 0 is the refusal marker (the iterator then yields nothing; checked in MakeFragments::next)
+            ex.prove(s, 'C11/producer/oversize-frame-refused', z3.Implies(z3.Not(fits), total == BV(0, 8)))
             ex.prove(s, 'C11/producer/starts-at-seq-0', mf.fields[4].t == BV(0, 8))
             ex.prove(s, 'C11/producer/keeps-id', mf.fields[2].t == fid.t)
     ck.absorb(ex, 'MakeFragments::new', finals)
-    ck.bounds['MakeFragments::new'] = 'id: all u16; mtu: all usize; frame len <= %d' % MAXLEN
+    ck.bounds['MakeFragments::new'] = 'id: all u16; mtu < 2^20 (QUIC datagrams are < 2^16); frame len <= %d' % MAXLEN
 
 
 def spec_make_fragments_next(ck, functional):
@@ -388,7 +396,9 @@ def spec_make_fragments_next(ck, functional):
     total = Int(z3.BitVec('total', 8), 8)
     nxt = Int(z3.BitVec('next', 8), 8)
     rest = sym_bytes(ex, st, 'rest', maxlen=MAXLEN)
-    ex.assume(st, z3.And(z3.UGT(mtu.t, BV(4, 64)), z3.ULT(mtu.t, BV(1 << 32, 64))))
+    # iterator invariant established by MakeFragments::new: total > 0 only with mtu > 4
+    ex.assume(st, z3.Implies(total.t != BV(0, 8), z3.UGT(mtu.t, BV(4, 64))))
+    ex.assume(st, z3.ULT(mtu.t, BV(1 << 32, 64)))
     mf = Agg('MakeFragments', {0: rest, 1: mtu, 2: fid, 3: total, 4: nxt})
     cell = st.alloc(mf)
     ex.inputs = {'id': fid, 'mtu': mtu, 'total': total, 'next': nxt, 'rest_len': Int(rest.len, 64)}
@@ -406,12 +416,13 @@ def spec_make_fragments_next(ck, functional):
                 ck.add('C11/producer/next-result-shape', 'inconclusive', 'symbolic discriminant')
                 continue
             if not is_some:
-                ex.prove(s, 'C11/producer/none-only-when-exhausted', rest.len == BV(0, 64))
+                ex.prove(s, 'C11/producer/none-only-when-exhausted-or-refused', z3.Or(rest.len == BV(0, 64), total.t == BV(0, 8)))
                 continue
             frag = r.variants[1][0]
             size = mtu.t - 4
             n = z3.If(z3.ULE(rest.len, size), rest.len, size)
             ex.prove(s, 'C11/producer/some-only-when-data-left', rest.len != BV(0, 64))
+            ex.prove(s, 'C11/producer/refused-frame-yields-nothing', total.t != BV(0, 8))
             ex.prove(s, 'C11/producer/fragment-len', frag.len == n + 4)
             ex.prove(s, 'C11/producer/fragment-fits-mtu', z3.ULE(frag.len, mtu.t))
             ex.prove(s, 'C11/producer/header-id', z3.Concat(frag.at(0), frag.at(1)) == fid.t)
@@ -423,7 +434,7 @@ def spec_make_fragments_next(ck, functional):
             ex.prove(s, 'C11/producer/rest-is-suffix', z3.Implies(z3.ULT(j, rest2.len), rest2.at(j) == rest.at(j + n)))
             ex.prove(s, 'C11/producer/seq-advances', mf2.fields[4].t == nxt.t + 1)
     ck.absorb(ex, 'MakeFragments::next', finals)
-    ck.bounds['MakeFragments::next'] = 'one step from ANY iterator state (rest len <= %d, 4 < mtu < 2^32, any id/total/next)' % MAXLEN
+    ck.bounds['MakeFragments::next'] = 'one step from ANY iterator state (rest len <= %d, mtu < 2^32 and mtu > 4 whenever total > 0, any id/total/next)' % MAXLEN
 
 
 def spec_make_fragments_entry(ck, functional):
@@ -442,6 +453,7 @@ def spec_make_fragments_entry(ck, functional):
     buf_holder['buf'] = sym_bytes(ex, st, 'frame')
     idcell = st.alloc(nid)
     ex.inputs = {'mtu': mtu, 'next_id': nid}
+    ex.assume(st, z3.ULT(mtu.t, BV(1 << 20, 64)))
     finals = ex.call_fn(st, fn, [mtu, Ref(idcell, ()), Opaque('T', 'thing')])
     if functional:
         for s in finals:
@@ -452,7 +464,67 @@ def spec_make_fragments_entry(ck, functional):
     ck.absorb(ex, 'Fragments::make_fragments', finals)
 
 
+# =========================================================================== native replay plans
+
+def _hx(v):
+    return v['hex'] if isinstance(v, dict) else ''
+
+
+def _history_for(inp):
+    """datagrams that drive a fresh Fragments into the symbolic pre-state of the counterexample"""
+    dg = bytes.fromhex(_hx(inp.get('datagram', {'hex': ''})))
+    if not inp.get('existing_entry') or len(dg) < 4 or 'existing_queue_total' not in inp:
+        return []
+    total = inp['existing_queue_total']
+    bm = inp['existing_queue_bitmap']
+    recv = [i for i in range(min(total, 128)) if (bm >> i) & 1]
+    return [(dg[0:2] + bytes([total & 0xff, s]) + b'p%d' % s).hex() for s in recv]
+
+
+def replay_plan(ob):
+    f = ob.finding
+    if f is None:
+        return None
+    inp = f.inputs
+    t = ob.target or ''
+    panicked = lambda o: bool(o.get('panicked'))
+    if ob.label.startswith('C11/'):
+        lab = ob.label
+        if lab.startswith('C11/reassemble/'):
+            case = {'driver': 'reassemble', 'args': {'history': _history_for(inp), 'datagram': _hx(inp['datagram'])}}
+            dg = bytes.fromhex(_hx(inp['datagram']))
+            if 'inconsistent-total-yields-no-frame' in lab:
+                return 'fragment', case, lambda o: (not o.get('panicked')) and o.get('frame') is not None and o.get('before') and o['before'][0][2] != dg[2]
+            if 'inconsistent-total-leaves-entry-untouched' in lab:
+                return 'fragment', case, lambda o: (not o.get('panicked')) and o.get('before') and o['before'][0][2] != dg[2] and o['after'] != o['before']
+            if 'malformed-header-creates-no-entry' in lab:
+                return 'fragment', case, lambda o: (not o.get('panicked')) and len(o['after']) > len(o['before']) and not (dg[3] < dg[2] <= 127)
+            if 'single-fragment' in lab:
+                return 'fragment', case, lambda o: (not o.get('panicked')) and (o.get('frame') != dg[4:].hex() or o['after'] != o['before'])
+            if 'incomplete-yields-no-frame' in lab or 'no-removal-when-incomplete' in lab:
+                return None
+            return None
+        if lab.startswith('C11/producer/'):
+            if 'mtu' in inp and ('frame_len' in inp or 'rest_len' in inp):
+                n = inp.get('frame_len', inp.get('rest_len'))
+                case = {'driver': 'make_fragments', 'args': {'mtu': inp['mtu'], 'frame_len': n, 'next_id': inp.get('id', inp.get('next_id', 0))}}
+                return 'fragment', case, lambda o: (not o.get('panicked')) and o.get('roundtrip_exact') is not True
+        return None
+    if t == 'ReassembleQueue::new' and 'total' in inp:
+        return 'fragment', {'driver': 'rq_new', 'args': {'total': inp['total'], 'seq': inp['seq'], 'buf': _hx(inp['buf'])}}, panicked
+    if t == 'ReassembleQueue::add_fragment' and 'queue_total' in inp:
+        return 'fragment', {'driver': 'rq_add', 'args': {'queue_total': inp['queue_total'], 'queue_bitmap': str(inp['queue_bitmap']),
+                                                         'seq': inp['seq'], 'buf': _hx(inp['buf'])}}, panicked
+    if t == 'Fragments::reassemble' and 'datagram' in inp:
+        return 'fragment', {'driver': 'reassemble', 'args': {'history': _history_for(inp), 'datagram': _hx(inp['datagram'])}}, panicked
+    if t in ('MakeFragments::new', 'Fragments::make_fragments', 'MakeFragments::next') and 'mtu' in inp:
+        return 'fragment', {'driver': 'make_fragments', 'args': {'mtu': inp['mtu'], 'frame_len': inp.get('frame_len', inp.get('rest_len', 10)),
+                                                                   'next_id': inp.get('next_id', 0)}}, panicked
+    return None
+
+
 def run_all(ck, functional):
+    ck.plans.append(replay_plan)
     spec_rq_new(ck, functional)
     spec_rq_add(ck, functional)
     spec_rq_assemble(ck, functional)
